@@ -194,6 +194,14 @@ impl<T> VxIter<T> {
             forall|i: int| #![trigger r.seq()[i]] #![trigger self.seq()[i]] 0 <= i < self.seq().len() ==> f.ensures((self.seq()[i],), r.seq()[i]),
     { unimplemented!() }
 
+    /// Iterator::fold, eagerly: some chain of accumulators acc[0] = init, f(acc[i], seq[i]) = acc[i+1], result acc[n]
+    #[verifier::external_body]
+    pub fn fold<B, F: Fn(B, T) -> B>(self, init: B, f: F) -> (r: B)
+        requires forall|acc: B, i: int| 0 <= i < self.seq().len() ==> #[trigger] f.requires((acc, self.seq()[i])),
+        ensures exists|accs: Seq<B>| accs.len() == self.seq().len() + 1 && accs[0] == init && r == accs[self.seq().len() as int]
+            && (forall|i: int| 0 <= i < self.seq().len() ==> f.ensures((#[trigger] accs[i], self.seq()[i]), accs[i + 1])),
+    { unimplemented!() }
+
     #[verifier::external_body]
     pub fn collect(self) -> (r: Vec<T>)
         ensures r@ == self.seq(),
